@@ -207,7 +207,7 @@ fn run(ctx: &mut Ctx) {
         });
     }
     // 3. generated programs + metamorphic twins
-    let n = tier.pick(700u64, 60_000u64) / ctx.nshards as u64 + 1;
+    let n = tier.pickn(700u64, 60_000u64) / ctx.nshards as u64 + 1;
     let opts = DiffOpts { prop: "C01", vet_is_violation: false, budget: 400_000, print: PrintOpts::default() };
     let opts_paren = DiffOpts { prop: "C01", vet_is_violation: false, budget: 400_000, print: PrintOpts { max_parens: true } };
     for i in 0..n {
@@ -318,7 +318,7 @@ fn run(ctx: &mut Ctx) {
         }
     }
     // 4. generated multi-package projects
-    let np = tier.pick(48u64, 2_000u64) / ctx.nshards as u64 + 1;
+    let np = tier.pickn(48u64, 2_000u64) / ctx.nshards as u64 + 1;
     for i in 0..np {
         let mut rng = Rng::keyed(seed, "c01-proj", ctx.shard as u64, i);
         let proj = Project::generate(&mut rng, 5);
